@@ -1622,3 +1622,26 @@ pub fn discard_space_native(_x: u8) -> u32 {
     assert!(paths::in_flight_bytes(&conn.path) == 0, "{} bytes of an abandoned packet space still count as in flight", paths::in_flight_bytes(&conn.path));
     1
 }
+
+/// Native replay body for the E2 slice query `e2_poll_transmit_close_reason_slice` (C08): an established client
+/// that still holds its Handshake keys is closed by the application with a telling reason.  The closing datagram
+/// carries one packet per space (null packet protection: the bytes are readable); the application's reason may
+/// appear in the 1-RTT packet only - the Handshake packet carries the generic APPLICATION_ERROR.
+pub fn close_reason_early_native(_x: u8) -> u32 {
+    let mut conn = mk_established(false);
+    conn.spaces[SpaceId::Handshake].crypto = Some(nullcrypto::keys());
+    conn.path.mtud = mtud::mk_disabled();
+    let now = crate::verif::mk_instant(51, 0).unwrap();
+    let reason: &[u8] = b"application secret";
+    conn.close(now, VarInt::from_u32(42), Bytes::from_static(b"application secret"));
+    let mut buf = Vec::with_capacity(4096);
+    let mut all = Vec::new();
+    while let Some(t) = conn.poll_transmit(now, 1, &mut buf) {
+        all.extend_from_slice(&buf[..t.size]);
+        buf.clear();
+    }
+    let hits = all.windows(reason.len()).filter(|w| *w == reason).count();
+    assert!(hits >= 1, "the 1-RTT close must carry the application's reason");
+    assert!(hits == 1, "the application's close reason was put on the wire {} times: it leaked into a Handshake (or Initial) packet", hits);
+    1
+}
